@@ -16,8 +16,9 @@ META = {
                   "spectrum.minvar.minvar", "spectrum.eigenfre.eigen"] + [c["q"] + ".__call__" for c in model.CLASSES.values()],
     "assumptions": ["A-REAL; A-PY; A-DFT; A-SVD",
                     "class-level grid independence is the composition of place.* (all NFFT) with grid.* (function level)",
-                    "pmtm(adapt): the stopping rule of the adaptive iteration is a global mean over NFFT, so the number of "
-                    "iterations may depend on NFFT; multitaper grid independence is claimed for the eigenspectra only (C19)",
+                    "pmtm: grid independence is proved for the eigenspectra and for the adaptive weights after one iteration "
+                    "(they depend on the frequency's own eigenspectra and on sig2 only); the stopping rule of the adaptive iteration "
+                    "is a global mean over NFFT, so the NUMBER of iterations may depend on NFFT -- not claimed",
                     "eigen(): bounded in the order P"],
     "trusted_base": [],
 }
@@ -28,6 +29,8 @@ def tasks(tier):
     for dt in ("real", "complex"):
         for f in ("arma2psd", "speriodogram", "CORRELOGRAMPSD", "minvar"):
             ts.append(funcs.grid_task(f, dt))
+        ts.append(funcs.grid_task("pmtm", dt, dict(method="unity")))
+        ts.append(funcs.grid_task("pmtm", dt, dict(method="adapt")))
         ts.append(funcs.grid_task("eigen", dt, dict(P=2, NSIG=1, method="music")))
         ts.append(funcs.grid_task("eigen", dt, dict(P=3, NSIG=1, method="ev")))
         for c in model.CLASSES:
